@@ -1,3 +1,5 @@
+import Fpdec.Kernels.Wide
+import Fpdec.Kernels.Round
 import Fpdec.Lemmas.Wide
 import Fpdec.Props.C03
 import Fpdec.Props.C16_Sites
@@ -98,5 +100,18 @@ example : i128ShiftedDivModFloor Profile.release (-10000000000000000000000000000
   rw [i128ShiftedDivModFloor_spec Profile.release _ 18 _ (by decide) (by decide) (by decide)]; decide
 example : Dom ⟨-1000000000000000000000000000000, 0⟩ ∧ Dom ⟨100000000000000000000, 0⟩ ∧
     Spec.div .floor (-1000000000000000000000000000000) 0 100000000000000000000 0 = .val (-10000000000) 0 := by decide
+
+/-! ### translated kernels
+The Lean definitions `Gen.K.*` are regenerated from the Rust source on every run by `tools/fpkernels.py` (expression-level
+translation).  These theorems tie them to the hand-written model the property theorems above are about: a change of the Rust
+kernel that changes its translation breaks them. -/
+theorem kernel_i128_div_mod_floor (prof : Profile) (x y : Int) :
+    Gen.K.i128_div_mod_floor prof x y = i128DivModFloor prof x y := Kernels.i128_div_mod_floor_eq prof x y
+theorem kernel_round_quot (prof : Profile) (tm : Mode) (quot : Int) (rem divisor : Nat) (mode : Option Mode)
+    (hq : fitsI128 quot = true) :
+    Gen.K.round_quot prof tm quot rem divisor mode = .ok (roundQuot tm quot rem divisor mode) :=
+  Kernels.round_quot_eq prof tm quot rem divisor mode hq
+theorem kernel_u128_mul_u128 (prof : Profile) (x y : Nat) :
+    Gen.K.u128_mul_u128 prof x y = u128MulU128 prof x y := Kernels.u128_mul_u128_eq prof x y
 
 end Fpdec.Props.C16
